@@ -724,33 +724,7 @@ func FH() []*Program {
 		Decls: []Decl{
 			{Name: "InitP", Request: "*T0", Provs: []Prov{fn("NewT0", nil, []string{"*T0"}, false)}},
 			{Name: "InitQ", Request: "*T1", Provs: []Prov{fn("NewT1", []string{"*str.Builder"}, []string{"*T1"}, false)}}}})
-	// a package reached only through another package's signatures (not imported by the
-	// declaration file), its name free or already a package-level identifier
-	ext := func(name string, params, results []string) Prov {
-		p := fn(name, params, results, false)
-		p.External = true
-		return p
-	}
-	for _, taken := range []bool{false, true} {
-		var consts []string
-		if taken {
-			consts = []string{"var config = 1", "var _ = config"}
-		}
-		out = append(out, &Program{Family: "FH", Desc: fmt.Sprintf("argument type from a transitively reached package, name taken=%v", taken), Types: typeNames(1),
-			ExtraImports: []string{`"verifcorpus/ext/extapp"`}, Consts: consts,
-			Decls: []Decl{{Name: "InitP", Request: "*extapp.Server", Provs: []Prov{ext("extapp.NewServer", []string{"*config.Config"}, []string{"*extapp.Server"})}}}})
-		out = append(out, &Program{Family: "FH", Desc: fmt.Sprintf("generic argument type from a transitively reached package, name taken=%v", taken), Types: typeNames(1),
-			ExtraImports: []string{`"verifcorpus/ext/extapp"`}, Consts: consts,
-			Decls: []Decl{{Name: "InitP", Request: "*extapp.Server", Provs: []Prov{ext("extapp.NewBoxed", []string{"config.Box[*config.Config]"}, []string{"*extapp.Server"})}}}})
-		out = append(out, &Program{Family: "FH", Desc: fmt.Sprintf("var-block type from a transitively reached package, name taken=%v", taken), Types: typeNames(3),
-			ExtraImports: []string{`"verifcorpus/ext/extapp"`}, Consts: consts,
-			Decls: []Decl{{Name: "InitP", Request: "*T0", Provs: []Prov{
-				func() Prov { p := ext("extapp.LoadConfig", nil, []string{"*config.Config"}); p.Async = true; return p }(),
-				func() Prov { p := ext("extapp.NewServer", []string{"*config.Config"}, []string{"*extapp.Server"}); p.Async = true; return p }(),
-				asyncFn("NewT1", nil, []string{"*T1"}),
-				asyncFn("NewT2", []string{"*T1"}, []string{"*T2"}),
-				fn("NewT0", []string{"*extapp.Server", "*T2"}, []string{"*T0"}, false)}}}})
-	}
+	out = append(out, FT()...)
 	// two files of one package, each with an async injector and different imports
 	out = append(out, &Program{Family: "FH", Desc: "two files, async injectors", Types: typeNames(3), Files: [][]int{{0}, {1}}, Decls: []Decl{
 		coreDecl("InitP", [][]int{{1, 2}, {}, {}}, 0b110, 0b010, -1, 0),
@@ -892,5 +866,59 @@ func FW() []*Program {
 			}
 		}
 	}
+	return out
+}
+
+// FT is the transitive-package family: types of packages that the declaration file does
+// not import (they are reached through the signatures of package extapp only), so the
+// generated file has to introduce the import itself; the package's name is free, already a
+// package-level identifier of the user's package ("config"), or a predeclared identifier
+// ("max"). Used by the C04 compile gate and the C12 naming gate.
+func FT() []*Program {
+	var out []*Program
+	asyncFn := func(name string, params, results []string) Prov {
+		p := fn(name, params, results, false)
+		p.Async = true
+		return p
+	}
+	// a package reached only through another package's signatures (not imported by the
+	// declaration file), its name free or already a package-level identifier
+	ext := func(name string, params, results []string) Prov {
+		p := fn(name, params, results, false)
+		p.External = true
+		return p
+	}
+	for _, taken := range []bool{false, true} {
+		var consts []string
+		if taken {
+			consts = []string{"var config = 1", "var _ = config"}
+		}
+		out = append(out, &Program{Family: "FT", Desc: fmt.Sprintf("argument type from a transitively reached package, name taken=%v", taken), Types: typeNames(1),
+			ExtraImports: []string{`"verifcorpus/ext/extapp"`}, Consts: consts,
+			Decls: []Decl{{Name: "InitP", Request: "*extapp.Server", Provs: []Prov{ext("extapp.NewServer", []string{"*config.Config"}, []string{"*extapp.Server"})}}}})
+		out = append(out, &Program{Family: "FT", Desc: fmt.Sprintf("generic argument type from a transitively reached package, name taken=%v", taken), Types: typeNames(1),
+			ExtraImports: []string{`"verifcorpus/ext/extapp"`}, Consts: consts,
+			Decls: []Decl{{Name: "InitP", Request: "*extapp.Server", Provs: []Prov{ext("extapp.NewBoxed", []string{"config.Box[*config.Config]"}, []string{"*extapp.Server"})}}}})
+		out = append(out, &Program{Family: "FT", Desc: fmt.Sprintf("var-block type from a transitively reached package, name taken=%v", taken), Types: typeNames(3),
+			ExtraImports: []string{`"verifcorpus/ext/extapp"`}, Consts: consts,
+			Decls: []Decl{{Name: "InitP", Request: "*T0", Provs: []Prov{
+				func() Prov { p := ext("extapp.LoadConfig", nil, []string{"*config.Config"}); p.Async = true; return p }(),
+				func() Prov { p := ext("extapp.NewServer", []string{"*config.Config"}, []string{"*extapp.Server"}); p.Async = true; return p }(),
+				asyncFn("NewT1", nil, []string{"*T1"}),
+				asyncFn("NewT2", []string{"*T1"}, []string{"*T2"}),
+				fn("NewT0", []string{"*extapp.Server", "*T2"}, []string{"*T0"}, false)}}}})
+	}
+	// package named like a predeclared identifier
+	out = append(out, &Program{Family: "FT", Desc: "argument type from a transitively reached package named max", Types: typeNames(1),
+		ExtraImports: []string{`"verifcorpus/ext/extapp"`},
+		Decls: []Decl{{Name: "InitP", Request: "*extapp.Server", Provs: []Prov{ext("extapp.NewLimited", []string{"*max.Limit"}, []string{"*extapp.Server"})}}}})
+	out = append(out, &Program{Family: "FT", Desc: "var-block type from a transitively reached package named max", Types: typeNames(3),
+		ExtraImports: []string{`"verifcorpus/ext/extapp"`},
+		Decls: []Decl{{Name: "InitP", Request: "*T0", Provs: []Prov{
+			func() Prov { p := ext("extapp.LoadLimit", nil, []string{"*max.Limit"}); p.Async = true; return p }(),
+			func() Prov { p := ext("extapp.NewLimited", []string{"*max.Limit"}, []string{"*extapp.Server"}); p.Async = true; return p }(),
+			asyncFn("NewT1", nil, []string{"*T1"}),
+			asyncFn("NewT2", []string{"*T1"}, []string{"*T2"}),
+			fn("NewT0", []string{"*extapp.Server", "*T2"}, []string{"*T0"}, false)}}}})
 	return out
 }
